@@ -333,3 +333,34 @@ def greedy_shrink(spec, candidates, still_fails, budget=300):
                 progress = True
                 break
     return spec, runs
+
+
+def ddmin(items, fails, budget=200):
+    """classic delta debugging over a list; fails(sublist) -> bool. Returns a 1-minimal failing sublist
+    (within budget re-runs)."""
+    items = list(items)
+    n = 2
+    runs = 0
+    while len(items) >= 2 and runs < budget:
+        chunk = max(1, len(items) // n)
+        subsets = [items[i:i + chunk] for i in range(0, len(items), chunk)]
+        reduced = False
+        for i, sub in enumerate(subsets):
+            comp = [x for j, s2 in enumerate(subsets) if j != i for x in s2]
+            runs += 1
+            if fails(comp):
+                items = comp
+                n = max(n - 1, 2)
+                reduced = True
+                break
+            if runs >= budget:
+                break
+        if not reduced:
+            if n >= len(items):
+                break
+            n = min(len(items), n * 2)
+    if len(items) == 1 and runs < budget:
+        runs += 1
+        if fails([]):
+            items = []
+    return items, runs
